@@ -1,4 +1,6 @@
 import SpecterModel.C01.Drv
+import SpecterModel.C03.Drv
+import SpecterModel.C05.Drv
 import SpecterModel.C06.Drv
 import SpecterModel.C08.Drv
 import SpecterModel.C09.Drv
@@ -32,6 +34,7 @@ import SpecterModel.C37.Drv
 import SpecterModel.C38.Drv
 import SpecterModel.C39.Drv
 import SpecterModel.C40.Drv
+import SpecterModel.C41.Drv
 import SpecterModel.C42.Drv
 import SpecterModel.C43.Drv
 import SpecterModel.C44.Drv
@@ -46,6 +49,8 @@ import SpecterModel.C51.Drv
 def main (args : List String) : IO UInt32 := do
   match args with
   | ["C01"] => do Specter.C01.main; return 0
+  | ["C03"] => do Specter.C03.main; return 0
+  | ["C05"] => do Specter.C05.main; return 0
   | ["C06"] => do Specter.C06.main; return 0
   | ["C08"] => do Specter.C08.main; return 0
   | ["C09"] => do Specter.C09.main; return 0
@@ -79,6 +84,7 @@ def main (args : List String) : IO UInt32 := do
   | ["C38"] => do Specter.C38.main; return 0
   | ["C39"] => do Specter.C39.main; return 0
   | ["C40"] => do Specter.C40.main; return 0
+  | ["C41"] => do Specter.C41.main; return 0
   | ["C42"] => do Specter.C42.main; return 0
   | ["C43"] => do Specter.C43.main; return 0
   | ["C44"] => do Specter.C44.main; return 0
